@@ -632,6 +632,13 @@ impl Engine for C13 {
                         downloaded_on.insert(rq.year, (today, pt));
                     }
                 }
+            } else {
+                // A disturbed or killed run may legitimately have destroyed what an earlier run left for
+                // the years it was rewriting (an implementation that writes in place and verifies a
+                // checksum on reading is correct too): those years are no longer known to be covered.
+                for rq in &obs.requests {
+                    downloaded_on.remove(&rq.year);
+                }
             }
 
             // ---- oracle 2 and 3: download counters
